@@ -11,7 +11,9 @@
 //!    any node of R, and without failover (the default) no replica is permitted and the request must stay inside the
 //!    preferred datacenter,
 //!  * on a sharded node, on a connection whose server-side shard is `((T + 2^63) << msb) * nr_shards >> 64` (every
-//!    node had a live connection on every shard before the first request was sent).
+//!    node had a live connection on every shard before the first request was sent). `nat=1` puts a port-shifting NAT
+//!    between driver and nodes (a connection aimed at shard s lands on s+1; pools fill slowly or never): the shard
+//!    clause is then judged for a key only if its node had a connection of the owning shard, READY for >= 100 ms.
 use super::common::*;
 use crate::mockcluster::*;
 use crate::mocknode::{Parsed, ShardMode};
@@ -111,7 +113,7 @@ pub fn run(words: &[&str], ctx: &mut Ctx) -> String {
     rt.block_on(async {
         let cluster = MockCluster::start(topo, with_std_prepare(|_| vec![act_void()])).await;
         let pref_dc = (pref > 0).then(|| Shape::dc_name(pref as usize - 1));
-        let session = match connect(&cluster, |b| match &pref_dc {
+        let session = match connect_with(&cluster, nat == 0, |b| match &pref_dc {
             None => b,
             Some(dc) if fo == 0 => b.prefer_datacenter(dc.clone()),
             Some(dc) => {
@@ -133,6 +135,7 @@ pub fn run(words: &[&str], ctx: &mut Ctx) -> String {
             Err(_) => return "e2e-skip prepare-failed".to_owned(),
         };
         let start = cluster.mark("requests");
+        let start_at = std::time::Instant::now();
         let mut failed = 0;
         for (i, k) in keys.iter().enumerate() {
             if session.execute_unpaged(&ps, (k.clone(), i as i32)).await.is_err() {
@@ -142,6 +145,8 @@ pub fn run(words: &[&str], ctx: &mut Ctx) -> String {
         let frames: Vec<Req> = cluster.user_frames().into_iter().filter(|f| f.seq > start).collect();
         let mut at_replica = 0;
         let mut at_shard = 0;
+        let mut unjudged = 0;
+        let conns = cluster.conns();
         for (i, k) in keys.iter().enumerate() {
             let mine: Vec<&Req> = frames
                 .iter()
@@ -184,6 +189,22 @@ pub fn run(words: &[&str], ctx: &mut Ctx) -> String {
             at_replica += 1;
             if let ShardMode::ByPort(n, msb) | ShardMode::ByPortShifted(n, msb) = nodes[f.node].shards {
                 let s = shard_of(tok, n, msb);
+                if nat != 0 {
+                    // the pools may be incomplete: the claim holds "whenever the pool has" a connection of that shard -
+                    // judged only if the node had one that was READY well before the first request and still open
+                    let settled = std::time::Duration::from_millis(100);
+                    let had = conns.iter().any(|c| {
+                        c.node == f.node
+                            && !c.control
+                            && c.shard == Some(s)
+                            && c.ready_at.is_some_and(|r| r + settled <= start_at)
+                            && c.closed_at.is_none_or(|x| x > f.at)
+                    });
+                    if !had {
+                        unjudged += 1;
+                        continue;
+                    }
+                }
                 if f.shard != Some(s) {
                     ctx.fail(format!(
                         "e2e route: key #{} (token {}) arrived at node {} on a connection of shard {:?}, the owning shard is {} of {}",
@@ -194,6 +215,6 @@ pub fn run(words: &[&str], ctx: &mut Ctx) -> String {
             }
             at_shard += 1;
         }
-        format!("route keys={} replica={} shard={} failed={}", keys.len(), at_replica, at_shard, failed)
+        format!("route keys={} replica={} shard={} noconn={} failed={}", keys.len(), at_replica, at_shard, unjudged, failed)
     })
 }
